@@ -24,8 +24,8 @@ ENGINE = "gen_chain"
 RULE = ("programs = iterator-DSL chains from a typed grammar (12 sources incl. konst iterators with std twins, "
         "13 adapters, 14 consumers via iter::eval!/for_each!, closure forms: inline, typed-return block, pattern "
         "parameter, function path; plus a const-context collect_const! batch), depth 0..=5; each chain is run on "
-        "enumerated inputs (all i32 slices of length <= 5 over {0,1,2} (thorough: {0,1,2,3}), 25 range-bound pairs, "
-        "numeric take/skip/nth arguments 0..=6) against the identical std chain; oracle = equality of the Debug-rendered "
+        "enumerated inputs (all i32 slices of length <= 5 over {0,1,2} (thorough: {0,1,2,3}) plus four long slices of length 8/13/21/34, 36 range-bound pairs, "
+        "numeric take/skip/nth arguments 0..=6 and 9, 20, 35) against the identical std chain; oracle = equality of the Debug-rendered "
         "consumer result; non-trivial = chain with >= 2 adapters of which >= 1 is stateful (take/skip/skip_while/"
         "take_while/enumerate/zip/flat_map/flatten), counted once per distinct chain (its inputs are reported as evaluations)")
 
@@ -83,9 +83,13 @@ pub fn run_all(chains: &[Chain]) {
     let nvals: usize = std::env::var("KP_NVALS").ok().and_then(|x| x.parse().ok()).unwrap_or(3);
     let maxlen: usize = std::env::var("KP_MAXLEN").ok().and_then(|x| x.parse().ok()).unwrap_or(5);
     let vals: Vec<i32> = (0..nvals as i32).collect();
-    let all_s = slices(&vals, maxlen);
+    let mut all_s = slices(&vals, maxlen);
+    // a few long inputs (beyond the exhaustive bound): lengths 8, 13, 21, 34 with values cycling through the alphabet
+    for (k, len) in [8usize, 13, 21, 34].into_iter().enumerate() {
+        all_s.push((0..len).map(|i| vals[(i * (k + 1) + i / 3) % vals.len()]).collect());
+    }
     let one_s: Vec<Vec<i32>> = vec![vec![1, 0, 2, 1]];
-    let all_t: Vec<Vec<i32>> = vec![vec![], vec![2, 1], vec![0, 1, 2, 0, 1, 2, 1]];
+    let all_t: Vec<Vec<i32>> = vec![vec![], vec![2, 1], vec![0, 1, 2, 0, 1, 2, 1], (0..19).map(|i| (i * 5 % 3) as i32).collect()];
     let one_t: Vec<Vec<i32>> = vec![vec![2, 1, 0]];
     let ss_parts: Vec<Vec<i32>> = vec![vec![], vec![1], vec![2, 0], vec![0, 1, 2]];
     let mut all_ss: Vec<Vec<usize>> = vec![vec![]];
@@ -93,11 +97,11 @@ pub fn run_all(chains: &[Chain]) {
     let one_ss: Vec<Vec<usize>> = vec![vec![2, 0, 3]];
     let all_st: Vec<&str> = vec!["", "a", ",", "a,b", ",a,,b,", "ab,é,漢", "é", "a,b,c,d"];
     let one_st: Vec<&str> = vec!["a,b"];
-    let bounds = [-1i32, 0, 1, 2, 4];
+    let bounds = [-1i32, 0, 1, 2, 4, 23];
     let mut all_ab = Vec::new();
     for a in bounds { for b in bounds { all_ab.push((a, b)); } }
     let one_ab = vec![(0i32, 3i32)];
-    let all_n: Vec<usize> = (0..=6).collect();
+    let all_n: Vec<usize> = (0..=6).chain([9, 20, 35]).collect();
     let one_n: Vec<usize> = vec![2];
     let mut total: u64 = 0;
     for c in chains {
